@@ -53,6 +53,10 @@ var whitelist = []entry{
 	{file: "stat_unix.go", name: "skipXattr"},
 	{file: "copy/copy.go", name: "containsWildcards", as: "copy_containsWildcards"},
 	{file: "types/stat.go", name: "IsDir", recv: "Stat"},
+	{file: "fs.go", name: "Size", recv: "StatInfo"},
+	{file: "fs.go", name: "Mode", recv: "StatInfo"},
+	{file: "fs.go", name: "ModTime", recv: "StatInfo"},
+	{file: "fs.go", name: "IsDir", recv: "StatInfo"},
 	{file: "diff_containerd.go", name: "sameFile", externs: map[string]extern{
 		// reads both files: the result of sameFile is stated for every behaviour of this function
 		"compareFileContent": {params: []Ty{{k: kString}, {k: kString}}, res: []Ty{{k: kBool}, {k: kError}}},
@@ -76,6 +80,7 @@ const (
 	kPattern       // *patternmatcher.Pattern -> list N (its String())
 	kUntyped       // untyped integer constant
 	kNil           // the identifier nil
+	kTime          // time.Time -> Prims.time: the (sec, nsec) pair given to time.Unix
 	kStruct        // *T, T a struct type of the package whose fields are all in the subset -> a generated Record
 )
 
@@ -107,6 +112,8 @@ func (t Ty) coq() string {
 		return "Stat.stat"
 	case kStruct:
 		return ident(t.name)
+	case kTime:
+		return "Prims.time"
 	}
 	return "?"
 }
@@ -137,6 +144,8 @@ func (t Ty) String() string {
 		return "nil"
 	case kStruct:
 		return "*" + t.name
+	case kTime:
+		return "time.Time"
 	}
 	return "invalid"
 }
@@ -182,6 +191,7 @@ var stdFuncs = map[string]struct {
 	"strings.HasSuffix":  {"Prims.strings_HasSuffix", []Ty{{k: kString}, {k: kString}}, Ty{k: kBool}},
 	"strings.TrimPrefix": {"Prims.strings_TrimPrefix", []Ty{{k: kString}, {k: kString}}, Ty{k: kString}},
 	"strings.TrimSuffix": {"Prims.strings_TrimSuffix", []Ty{{k: kString}, {k: kString}}, Ty{k: kString}},
+	"time.Unix":          {"Prims.time_Unix", []Ty{{k: kI64}, {k: kI64}}, Ty{k: kTime}},
 }
 
 type untranslatable struct {
@@ -383,7 +393,11 @@ func (t *tr) record(n ast.Node, name string) error {
 			return bad(n, "struct %s has a field outside the subset", name)
 		}
 		if len(f.Names) == 0 {
-			return bad(n, "struct %s has an embedded field", name)
+			// an embedded *types.Stat is the field named Stat; promoted fields and methods are outside the subset
+			if ty.k != kStat {
+				return bad(n, "struct %s has an embedded field other than *types.Stat", name)
+			}
+			fields = append(fields, fmt.Sprintf("%s_Stat : %s", name, ty.coq()))
 		}
 		for _, fn := range f.Names {
 			fields = append(fields, fmt.Sprintf("%s_%s : %s", name, fn.Name, ty.coq()))
@@ -400,6 +414,11 @@ func (t *tr) structField(name, field string) (Ty, bool) {
 		return Ty{}, false
 	}
 	for _, f := range st.Fields.List {
+		if len(f.Names) == 0 && field == "Stat" {
+			if ty, err := t.typeOf(f.Type); err == nil && ty.k == kStat {
+				return ty, true
+			}
+		}
 		for _, fn := range f.Names {
 			if fn.Name == field {
 				ty, err := t.typeOf(f.Type)
@@ -455,6 +474,8 @@ func (t *tr) typeOf(e ast.Expr) (Ty, error) {
 			return Ty{k: kUint, bits: 64}, nil
 		case "error":
 			return Ty{k: kError}, nil
+		case "int64":
+			return Ty{k: kI64}, nil
 		}
 		if t.pkg != nil {
 			if u, ok := t.pkg.named[x.Name]; ok {
@@ -472,6 +493,9 @@ func (t *tr) typeOf(e ast.Expr) (Ty, error) {
 	case *ast.SelectorExpr:
 		if p, ok := x.X.(*ast.Ident); ok && p.Name == "os" && x.Sel.Name == "FileMode" {
 			return Ty{kUint, 32, "os.FileMode"}, nil
+		}
+		if p, ok := x.X.(*ast.Ident); ok && p.Name == "time" && x.Sel.Name == "Time" {
+			return Ty{k: kTime}, nil
 		}
 	case *ast.StarExpr:
 		if id, ok := x.X.(*ast.Ident); ok && t.pkg != nil {
@@ -526,6 +550,10 @@ func (t *tr) conv(n ast.Node, v val, ty Ty) (string, error) {
 			return v.c.ExactString() + "%N", nil
 		case kI64:
 			c := v.c
+			lim := constant.Shift(constant.MakeInt64(1), token.SHL, 63)
+			if constant.Compare(c, token.GEQ, lim) || constant.Compare(c, token.LSS, constant.UnaryOp(token.SUB, lim, 0)) {
+				return "", bad(n, "constant %s overflows int64", c.ExactString())
+			}
 			if constant.Sign(c) < 0 {
 				c = constant.BinaryOp(c, token.ADD, constant.Shift(constant.MakeInt64(1), token.SHL, 64))
 			}
@@ -574,7 +602,7 @@ func (t *tr) expr(e ast.Expr, ev *env) (val, error) {
 		return t.expr(x.X, ev)
 	case *ast.BasicLit:
 		switch x.Kind {
-		case token.INT, token.CHAR:
+		case token.INT, token.CHAR, token.FLOAT: // a float literal is accepted when its value is an integer (1e9)
 			c := constant.MakeFromLiteral(x.Value, x.Kind, 0)
 			c = constant.ToInt(c)
 			if c.Kind() != constant.Int {
@@ -885,11 +913,30 @@ func (t *tr) binary(x *ast.BinaryExpr, ev *env) (val, error) {
 			return val{code: "(N.leb " + bc + " " + ac + ")", ty: boolT}, nil
 		}
 	case kI64:
+		// two's complement in N; arithmetic through the signed value, wrapped back to 64 bits (Prims.i64_*)
 		switch op {
 		case token.EQL:
 			return val{code: "(N.eqb " + ac + " " + bc + ")", ty: boolT}, nil
 		case token.NEQ:
 			return val{code: "(negb (N.eqb " + ac + " " + bc + "))", ty: boolT}, nil
+		case token.ADD:
+			return val{code: "(Prims.i64_add " + ac + " " + bc + ")", ty: ty}, nil
+		case token.SUB:
+			return val{code: "(Prims.i64_sub " + ac + " " + bc + ")", ty: ty}, nil
+		case token.MUL:
+			return val{code: "(Prims.i64_mul " + ac + " " + bc + ")", ty: ty}, nil
+		case token.QUO: // truncates towards zero
+			return val{code: "(Prims.i64_quot " + ac + " " + bc + ")", ty: ty}, nil
+		case token.REM: // sign of the dividend
+			return val{code: "(Prims.i64_rem " + ac + " " + bc + ")", ty: ty}, nil
+		case token.LSS:
+			return val{code: "(Prims.i64_ltb " + ac + " " + bc + ")", ty: boolT}, nil
+		case token.LEQ:
+			return val{code: "(Prims.i64_leb " + ac + " " + bc + ")", ty: boolT}, nil
+		case token.GTR:
+			return val{code: "(Prims.i64_ltb " + bc + " " + ac + ")", ty: boolT}, nil
+		case token.GEQ:
+			return val{code: "(Prims.i64_leb " + bc + " " + ac + ")", ty: boolT}, nil
 		}
 	case kError:
 		// only comparison with nil
@@ -1122,8 +1169,15 @@ func (t *tr) call(x *ast.CallExpr, ev *env, allowOpt bool) (val, error) {
 		if r.ty.k == kUint && r.ty.name == "os.FileMode" && f.Sel.Name == "IsDir" && len(x.Args) == 0 {
 			return val{code: "(Prims.FileMode_IsDir " + r.code + ")", ty: Ty{k: kBool}}, nil
 		}
-		if r.ty.k == kStat {
-			if sig, ok := t.funcs["Stat."+f.Sel.Name]; ok && len(sig.res) == 1 && !sig.opt && len(sig.params) == 1+len(x.Args) {
+		recvName := ""
+		switch r.ty.k {
+		case kStat:
+			recvName = "Stat"
+		case kStruct:
+			recvName = r.ty.name
+		}
+		if recvName != "" {
+			if sig, ok := t.funcs[recvName+"."+f.Sel.Name]; ok && len(sig.res) == 1 && !sig.opt && len(sig.params) == 1+len(x.Args) {
 				a, err := args(sig.params[1:])
 				if err != nil {
 					return val{}, err
